@@ -33,6 +33,8 @@ def run(ctx):
     R.rule_R1(ctx, typer, funcs)
     R.rule_R2(ctx, funcs)
     R.rule_R4(ctx, typer, funcs)
+    R.rule_R6_string_compare(ctx, typer, funcs)
+    ctx.floor("R6", 2)
     R.rule_G4_handlers(ctx, funcs)
     hits, stats = lint_program(ctx.p, typer, files={R.RES})
     ctx.instances["G5"] = stats["typed_node"] + stats["typed_node_seq"]
